@@ -7,7 +7,12 @@ package sourcebundle
 
 //@ func OpenDir -> (b, err)
 //@   replay bundleLookup:
+//@   replay bundleMeta@C09:
 //@   sweep
+//@   invariant loop1 C09.open.meta-kept: rangeindex >= 0 ==> ((rpm.Meta.GitCommitID != "" || rpm.Meta.GitCommitMessage != "") ==>
+//@       mapHas(ret.remotePackageMeta, pkgAddr) && ret.remotePackageMeta[pkgAddr] != nil
+//@       && ret.remotePackageMeta[pkgAddr].gitCommitID == rpm.Meta.GitCommitID && ret.remotePackageMeta[pkgAddr].gitCommitMessage == rpm.Meta.GitCommitMessage)
+//@   invariant loop1 C09.open.dir-kept: rangeindex >= 0 ==> mapHas(ret.remotePackageDirs, pkgAddr) && ret.remotePackageDirs[pkgAddr] == rpm.LocalDir
 //@   invariant loop1 C18.open.inv1: ret != nil && ret.rootDir == Abs(baseDir) && dirSafeAt(ret, skolem("K", "sourceaddrs.RemotePackage"))
 //@   ensures C18.open.dirs-safe: err == nil ==> b != nil && rootOK(b) && dirSafeAt(b, skolem("K", "sourceaddrs.RemotePackage"))
 //@   ensures C12.open.nil-on-error: err != nil ==> b == nil
@@ -176,3 +181,69 @@ package sourcebundle
 //@   at-call invoke github.com/hashicorp/go-slug/sourcebundle.DependencyFinder.FindDependencies C14.resolve.analyse-once: !mapHas(b.analyzed, artifact) && artifact.sourceAddr == next__2.sourceAddr && artifact.depFinder == next__2.depFinder
 //@   at-call invoke github.com/hashicorp/go-slug/sourcebundle.DependencyFinder.FindDependencies C08.resolve.analyse-in-package: a2 == next__2.sourceAddr.subPath && a3 != nil && a3.baseAddr == next__2.sourceAddr
 //@   at-call dynamic field sourcebundle.BuildTracer.Diagnostics C12.resolve.finder-diags-traced: a1 == moreDiags && len(moreDiags) != 0
+
+// Entry points of the builder. A closed or poisoned builder (targetDir == "") refuses all further use by panicking.
+//@ func (*Builder).AddRemoteSource -> (diags)
+//@   requires pre.b: builderOpen(b) && (b.targetDir == "" || (isAbs(b.targetDir) && Clean(b.targetDir) == b.targetDir))
+//@   at-panic C12.add-remote.refuses-when-poisoned: b.targetDir == ""
+//@   at-call append C08.add-remote.enqueues-given: a1.sourceAddr == addr && a1.depFinder == depFinder && !mapHas(b.analyzed, a1)
+//@   at-call Builder.resolvePending C12.add-remote.open: b.targetDir != ""
+
+//@ func (*Builder).AddRegistrySource -> (diags)
+//@   requires pre.b: builderOpen(b) && (b.targetDir == "" || (isAbs(b.targetDir) && Clean(b.targetDir) == b.targetDir))
+//@   at-panic C12.add-registry.refuses-when-poisoned: b.targetDir == ""
+//@   at-call append C08.add-registry.enqueues-given: a1.sourceAddr == addr && a1.versions == allowedVersions && a1.depFinder == depFinder
+//@   at-call Builder.resolvePending C12.add-registry.open: b.targetDir != ""
+
+//@ func (*Builder).AddFinalRegistrySource -> (diags)
+//@   requires pre.b: builderOpen(b) && (b.targetDir == "" || (isAbs(b.targetDir) && Clean(b.targetDir) == b.targetDir))
+//@   at-call Builder.AddRegistrySource C17.add-final.exact-version: a2 == addr.src && a3 == onlyVersion(addr.version) && a4 == depFinder
+
+//@ func (*Builder).Close -> (r, err)
+//@   requires pre.b: b != nil
+//@   at-panic C12.close.refuses-when-poisoned: b.targetDir == ""
+//@   at-call Builder.writeManifest C12,C09.close.manifest-path: a1 == Join(old(b.targetDir), "terraform-sources.json") && b.targetDir == ""
+//@   at-call OpenDir C09.close.opens-what-it-wrote: a0 == old(b.targetDir)
+//@   ensures C12.close.no-bundle-on-error: err != nil ==> r == nil
+
+//@ callgraph C12.manifest-only-in-close: only (*Builder).Close calls Builder.writeManifest
+//@ callgraph C12.manifest-writer: only (*Builder).writeManifest calls os.WriteFile
+
+// The callbacks handed to dependency finders.
+//@ func (*Builder).resolvePending$2
+//@   at-call append C08.cb.remote-pushes-reported: a1.sourceAddr == source && a1.depFinder == depFinder
+//@ func (*Builder).resolvePending$3
+//@   at-call append C08.cb.registry-pushes-reported: a1.sourceAddr == source && a1.versions == allowedVersions && a1.depFinder == depFinder
+//@ func (*Builder).resolvePending$4
+//@   at-call append C12.cb.local-error-becomes-diag: dyntype(a1, "*sourcebundle.internalDiagnostic") && unbox(a1, "*sourcebundle.internalDiagnostic").severity == DiagError
+
+//@ func (*Dependencies).AddLocalSource
+//@   requires pre.d: d != nil
+//@   requires pre.source: localOK(source.relPath)
+//@   at-call ResolveRelativeSource C08,C11.deps.local-against-analysed: dyntype(a0, "sourceaddrs.RemoteSource") && unbox(a0, "sourceaddrs.RemoteSource") == d.baseAddr
+//@       && dyntype(a1, "sourceaddrs.LocalSource") && unbox(a1, "sourceaddrs.LocalSource") == source
+
+// Finder diagnostics are wrapped, not altered: every element is replaced by a wrapper around itself.
+//@ func (Diagnostics).inRemoteSourcePackage -> (r)
+//@   invariant loop1 C12.diags.wrap.inv: rangeindex < len(diags)
+//@       && (0 <= anyIndex && anyIndex <= rangeindex ==> dyntype(diags[anyIndex], "sourcebundle.diagnosticInSourcePackage")
+//@             && unbox(diags[anyIndex], "sourcebundle.diagnosticInSourcePackage").wrapped == old(diags[anyIndex]) && unbox(diags[anyIndex], "sourcebundle.diagnosticInSourcePackage").pkg == pkg)
+//@       && (anyIndex > rangeindex ==> diags[anyIndex] == old(diags[anyIndex]))
+//@   ensures C12.diags.wrap.all: r == diags && (0 <= anyIndex && anyIndex < len(diags) ==> dyntype(r[anyIndex], "sourcebundle.diagnosticInSourcePackage")
+//@             && unbox(r[anyIndex], "sourcebundle.diagnosticInSourcePackage").wrapped == old(diags[anyIndex]) && unbox(r[anyIndex], "sourcebundle.diagnosticInSourcePackage").pkg == pkg)
+
+//@ func (diagnosticInSourcePackage).Severity -> (r)
+//@   pure
+//@   ensures C12.diags.severity-intact: r == diagSeverity(diag.wrapped)
+//@ func (diagnosticInSourcePackage).ExtraInfo -> (r)
+//@   pure
+//@   ensures C12.diags.extra-intact: r == diagExtra(diag.wrapped)
+
+// Writing the manifest: one entry per package with its printed address, directory name and metadata.
+//@ func (*Builder).writeManifest -> (err)
+//@   requires pre.b: b != nil
+//@   opt propagate-errors
+//@   at-call append#1 C09.manifest.pkg-entry: a1.SourceAddr == remotePkgStr(pkgAddr) && a1.LocalDir == localDirName
+//@       && (pkgMeta != nil ==> a1.Meta.GitCommitID == pkgMeta.gitCommitID && a1.Meta.GitCommitMessage == pkgMeta.gitCommitMessage)
+//@       && (pkgMeta == nil ==> a1.Meta.GitCommitID == "" && a1.Meta.GitCommitMessage == "")
+//@   at-call os.WriteFile C12,C09.manifest.path: a0 == filename
